@@ -59,6 +59,28 @@ def oracle_disagrees(p, final):
     return None if err <= 1e-9 * (1 + np.abs(coef).max()) else "max |state - DFT of isochromats| = %.3g" % err
 
 
+def adc_trace_disagrees(p, snaps):
+    """the values recorded by in-sequence probes (the default ADC and Adc('Z0'), no probe= override) after EVERY operator
+    must be F0 / Z0 of the state at that point (snapshots of the same program stepped operator by operator)"""
+    import epgpy as epg
+    seq = []
+    for o in p["ops"]:
+        seq += [prog.build_op(o), epg.ADC, epg.Adc("Z0")]
+    opts = {"max_nstate": p["max_nstate"]} if p["max_nstate"] else {}
+    if p["init"] is not None:
+        init = epg.StateMatrix(np.array(p["init"], complex), density=p["pd"])
+    else:
+        init = epg.StateMatrix(density=p["pd"])
+    vals = np.asarray(epg.simulate(seq, init=init, **opts)).reshape(-1)
+    for i, sn in enumerate(snaps[1:]):
+        st = np.array(sn[0], complex)
+        c = (st.shape[0] - 1) // 2
+        if vals[2 * i] != st[c, 0] or vals[2 * i + 1] != st[c, 2]:
+            return "acquisition after operator %d records (%s, %s) but the state at that point has F0 = %s, Z0 = %s" % (
+                i, vals[2 * i], vals[2 * i + 1], st[c, 0], st[c, 2])
+    return None
+
+
 def simulate_probe(p):
     import epgpy as epg
     seq = [prog.build_op(o) for o in p["ops"]] + [epg.ADC]
@@ -102,6 +124,14 @@ def run(ctx):
             ctx.report("implementation raised %s on a valid program: %s" % (type(e).__name__, e), {"case": p},
                        found_input=True, signature={"raises": type(e).__name__})
             continue
+        if p["ops"]:
+            try:
+                why = adc_trace_disagrees(p, snaps)
+            except Exception as e:
+                why = "in-sequence ADC run raised %s: %s" % (type(e).__name__, str(e)[:120])
+            ctx.cov["adc_traces"] = ctx.cov.get("adc_traces", 0) + 1
+            if why:
+                ctx.report("in-sequence probes: " + why, {"case": p}, found_input=True, signature={"oracle": "adc-trace"})
         ops = prog.c_ops(p)
         obs = core.clist([prog.c_sm(s) for s in snaps[1:]])
         terms.append("(trace_ok %s %s %s && probe_ok %s %s %s %s)" % (
